@@ -287,4 +287,13 @@ def units(tier):
                 if tier == "quick" and ex not in (None, "Bad7zFile", "CrcError", "PasswordRequired", "LZMAError", "OSError"):
                     continue
                 us.append(Unit("2.exit_status[%s,%s,%s]" % (func, pt, ex), M, "exit_status", dict(func=func, point=pt, exc=ex), 600))
+    # (2) ties the exit status to the library's verdict; that the verdict itself tells the truth about damaged data is C04 –
+    # the part the command relies on is re-decided here: 't' = test() + testzip() on a file object, 'x' = extractall by path
+    from vf.props import c04
+
+    for u in c04.units(tier):
+        t_path = u.name.startswith("3.damaged[") and u.kwargs.get("mode") == "testzip"
+        x_path = u.name.startswith("3.damaged_by_path[") and u.kwargs.get("mode") == "extractall"
+        if t_path or x_path or u.name.startswith("4.packed_test"):
+            us.append(Unit("3.library_verdict(%s).%s" % ("t" if not x_path else "x", u.name), u.module, u.func, u.kwargs, u.timeout))
     return us
